@@ -45,6 +45,13 @@ var c10Corpus = []string{
 	"let g = [1, 2, 2, 3].groupByInt(e -> e); g.size() + a",
 	"[1, 2, 3].map(e -> e + a).reduce((p, q) -> p * q) + (try [1][a] catch 0 - 1)",
 	"let big = numbers(200).map(e -> e + 1).map(e -> e * 3); big[a * 7 % 200] + big.indexWhere(e -> e > a * 9)",
+	// what another evaluation did to a shared lazy list (it materialised it) shows nowhere: not in what multiUse allows, not in
+	// the texts that print the list
+	"let c = numbers(5).map(e -> e + 1); if a % 2 = 0 then (try c.multiUse({a: l -> l.first() + l.last() + a, b: l -> l.sum()}).a catch 0 - 1) else c.size()",
+	"let c = numbers(5).map(e -> e + 1); if a % 3 = 0 then c[a % 5] else (try c.multiUse({a: l -> [l.size(), l.sum()].sum(), b: l -> l.top(2).sum()}).a catch 0 - 1)",
+	"let c = numbers(14).map(e -> e + 1); if a % 2 = 0 then sprintf(\"%v: %v\", a, c) else c.size().string()",
+	"let c = numbers(14).map(e -> e * 2); if a % 2 = 0 then (try c(a) catch e -> e) else c.last().string()",
+	"let c = numbers(30).accept(e -> e % 2 = 0); [sprintf(\"%v\", c), c[a % 15].string(), sprintf(\"%v\", c)].string()",
 	// constant maps with more entries than any small-map shortcut handles, read behind every position, then observed in order
 	"let c = {k0: 0, k1: 1, k2: 2, k3: 3, k4: 4, k5: 5, k6: 6, k7: 7, k8: 8, k9: 9, k10: 10, k11: 11}; [(c + {zz: a}).string(), c.k10 + a, c.k9 + a, c.k11 + a, (c + {zy: a}).list().map(e -> e.key).string()].string()",
 	"let c = {k0: 0, k1: 1, k2: 2, k3: 3, k4: 4, k5: 5, k6: 6, k7: 7, k8: 8, k9: 9, k10: 10, k11: 11}; if a % 2 = 0 then c.get(\"k\" + (8 + a % 4)) else (c + {zz: a}).string().len() * 1000 + (c + {zz: a}).list().first().value",
@@ -173,7 +180,15 @@ func c10Pooled(c *Ctx) {
 			[]string{"\"rec: \" + p", "p.k10 + a", "p.k8", "p.k11 + p.k9", "p.string()", "p.list().map(e -> e.key).string()", "try p.nosuch catch 0 - 1", "p.get(\"k\" + (8 + a % 4))", "(p + {zz: a}).string()", "p.isAvail(\"k9\", \"k11\")"}},
 		{"list-with-spare-capacity", mk("[1, 2].append(3)"), []string{"p.string()", "p.append(a).string()", "(p + [a]).string()", "p.append(a).append(a + 1).size() + p.size()", "p.reverse().string()", "[1, 2] ~ p", "p ~ [3, 2, 1, a]", "p.sum()"}},
 		{"binning", mk("[0.5, 1.5, 1.5].binning(0, 1, 2, x -> x, x -> 1)"), []string{"p.values.string()", "[p, [a + 0.5].binning(0, 1, 2, x -> x, x -> 1)].collectBinning().values.string()", "[p, p].collectBinning().values.string()", "p.values.append(a).size()", "p.string()"}},
-		{"lazy-list", func() value.Value { return lazyList([]value.Value{value.Int(4), value.Int(5), value.Int(6)}, false) }, []string{"p.string()", "p.first() + a", "p.size()", "p.append(a).string()", "p[1]", "try p[7] catch 0 - 1", "p.map(e -> e + a).string()", "p.reverse().string()"}},
+		{"lazy-list", func() value.Value { return lazyList([]value.Value{value.Int(4), value.Int(5), value.Int(6)}, false) }, []string{"p.string()", "p.first() + a", "p.size()", "p.append(a).string()", "p[1]", "try p[7] catch 0 - 1", "p.map(e -> e + a).string()", "p.reverse().string()",
+			"try p.multiUse({a: l -> l.first() + l.last() + a, b: l -> l.sum()}).a catch 0 - 1", "p.multiUse({a: l -> l.sum() + a, b: l -> l.size()}).a", "sprintf(\"%v\", p)"}},
+		{"long-lazy-list", func() value.Value {
+			var items []value.Value
+			for i := 0; i < 14; i++ {
+				items = append(items, value.Int(int64(i*3)))
+			}
+			return lazyList(items, true)
+		}, []string{"sprintf(\"%v: %v\", a, p)", "p.size()", "p[a]", "try p(a) catch e -> e", "p.top(3).string()", "sprintf(\"%v\", [p, a])", "p.last()", "p.string().len()"}},
 	}
 	steps := c.Pick(40, 120)
 	for _, k := range kinds {
@@ -225,10 +240,62 @@ func c10Pooled(c *Ctx) {
 	}
 }
 
-func runC10(c *Ctx) {
-	if os.Getenv("VERIF_REPLAY") == "" {
-		c10Pooled(c)
+// c10StackLimitScan: an evaluation that fails because the value stack is exhausted in the MIDDLE of something (here: of the first
+// materialisation of a shared constant list, reached at a recursion depth scanned across the limit) leaves nothing behind: the
+// next evaluation gives what it gives on a fresh generator
+func c10StackLimitScan(c *Ctx) {
+	// (the use of the list mentions n: c.size() alone would be folded, and the list materialised, at compile time)
+	progs := []string{
+		"let c = numbers(9).iir(e -> e, (e, l) -> l + e); func f(n) if n = 0 then c.append(n).size() else f(n - 1); try f(a) catch 0 - 1",
+		"let c = numbers(9).number((i, e) -> let u = i + e; u); func f(n) if n = 0 then c.map(e -> e + n).sum() else f(n - 1); try f(a) catch 0 - 1",
+		"let c = numbers(6).combine((p, q) -> let u = p + q; u); func f(n) if n = 0 then c[n + 2] else f(n - 1); try f(a) catch 0 - 1",
+		"let m = {k: numbers(7).iir(e -> e, (e, l) -> l + e)}; func f(n) if n = 0 then m.k.append(n).string().len() else f(n - 1); try f(a) catch 0 - 1",
 	}
+	for _, src := range progs {
+		iso0, iso3 := isolatedOutcome(src, 0), isolatedOutcome(src, 3)
+		for d := 9930; d <= 10030; d++ {
+			// a fresh generated function per depth: once an evaluation got through, the list is in memory for good
+			fg := newValueFG(true)
+			f, _, err := fg.Generate(src, "a")
+			if err != nil {
+				fatal("c10 stack limit scan: %v", err)
+			}
+			for _, a := range []int{d, 0, 3} {
+				out := func() (o string) {
+					defer func() {
+						if r := recover(); r != nil {
+							o = fmt.Sprintf("PANIC %v", r)
+						}
+					}()
+					v, err := f.Eval(value.Int(int64(a)))
+					if err != nil {
+						return "ERR"
+					}
+					cv, _ := canonValue(v)
+					return "OK " + cv
+				}()
+				c.Case(fmt.Sprintf("stack-limit-scan|%s|%d|%d", src, d, a), true)
+				c.Count("stack-limit-scan")
+				want := iso0
+				if a == 3 {
+					want = iso3
+				}
+				if a != d && out != want {
+					c.disagree++
+					c.Violation("evaluation-depends-on-history", "after an evaluation that ran out of value stack at some depth, the next evaluation differs from the one on a fresh generator",
+						map[string]any{"program": src, "depth_of_the_failing_evaluation": d, "argument": a, "outcome": trunc(out, 200), "isolated": trunc(want, 200)})
+					d = 1 << 30
+					break
+				}
+			}
+		}
+	}
+}
+
+func runC10(c *Ctx) {
+	// (a replay of C10 is the quick tier again: every family is deterministic)
+	c10Pooled(c)
+	c10StackLimitScan(c)
 	c.rule = "programs with state that survives an evaluation (constant lazy lists, constant maps and closures bound before use, recursion, failing elements, partially consumed lists; corpus + C01 generator with a constant list in scope) are generated once and evaluated in a history of up to 50 steps: arguments from a pool of 8, handed over as a sub-slice of a host-owned buffer with spare capacity (which must stay untouched), interleaved with evaluations of two other functions of the same generator, new Generate calls, results dropped, forced, or half consumed (first / top / size via the API) and consumed later; predicate: every outcome equals the isolated first evaluation of the same program and argument on a fresh generator, and the Lean model's reference outcome; non-trivial = distinct (program, history) with >= 3 evaluations over >= 2 different arguments of a program that contains a constant list/closure"
 	c.assume = append(c.assume, "state outside the model: list materialisation caches (C09 shows they are unobservable), package-level variables")
 	n := c.Pick(400, 12000)
@@ -413,6 +480,11 @@ func runC10(c *Ctx) {
 			continue
 		}
 		mr := f[1]
+		if strings.Contains(mr, "60.101.114.114.111.114.62") {
+			// the model abstracts the text of an implementation-raised error as "<error>"; a result that contains it is not compared
+			c.Count("model:error-text-abstracted")
+			continue
+		}
 		if mr == "FUEL" || mr == "UNMODELLED" {
 			c.Count("model:" + mr)
 			continue
